@@ -9,6 +9,6 @@ CONSTANTS
   AllVariants = FALSE
   MultiEvery = 4
   MultiPlans = 1
-  OptEvery = 3
+  OptEvery = 4
 INVARIANT Emit
 CHECK_DEADLOCK FALSE
